@@ -687,8 +687,14 @@ type retryableAuthMethod struct {
 }
 
 func (r *retryableAuthMethod) auth(session []byte, user string, c packetConn, rand io.Reader, extensions map[string][]byte) (ok authResult, methods []string, err error) {
+	var lastMethods []string
 	for i := 0; r.maxTries <= 0 || i < r.maxTries; i++ {
 		ok, methods, err = r.authMethod.auth(session, user, c, rand, extensions)
+		// Keep the most recent list the server sent during any of the runs.
+		if methods == nil {
+			methods = lastMethods
+		}
+		lastMethods = methods
 		if ok != authFailure || err != nil { // either success, partial success or error terminate
 			return ok, methods, err
 		}
